@@ -131,6 +131,11 @@ def check(run):
     run.cov["subsets_pinned"] = cov["covered"]
     run.cov["subsets_total"] = cov["total"]
     judge(run, trace2, "subsets", wd, chunks=10)
+    # (3) hardware instances created at the same moment on 4 threads, then used one after the other by a fresh thread
+    trace3 = os.path.join(wd, "idrace.ndjson")
+    vlib.run_bin("h_cpus", ["pin-idrace", trace3, 60 if thorough else 16], env={"VERIF_SEED": run.seed}, timeout=1200)
+    judge(run, trace3, "instances-created-concurrently", wd, chunks=8 if thorough else 4)
+    run.cov["instances_created_concurrently"] = (60 if thorough else 16) * 192
     run.cov["distinct_nontrivial"] = len(cases) + cov["covered"]
     complete = cov["covered"] == cov["total"]
     run.cov["rule"] = ("TLC enumerates every history of <=2 operations (pin any non-empty subset / spawn_threads / spawn_thread) by 2 "
